@@ -40,7 +40,7 @@ COMPONENTS = {
              'mapproxy.seed.seeder.TileWalker/TileWorkerPool/TileCleanupWorker (thread flavour)', 'mapproxy.seed.config.CleanupConfiguration/SeedingConfiguration',
              'mapproxy.config.loader.ProxyConfiguration', 'mapproxy.cache.file / path (all layouts)', 'mapproxy.cache.compact',
              'mapproxy.cache.mbtiles (MBTilesCache, MBTilesLevelCache)', 'mapproxy.cache.geopackage', 'os.walk / shutil.rmtree replacement over SimFS'],
-    'stub': ['file system for file/compact caches (SimFS, readdir order permuted)', 'clock', 'queue + scheduler for the cleanup worker threads'],
+    'stub': ['file system for file/compact caches (SimFS, readdir order permuted)', 'clock', 'queue + scheduler for the cleanup worker threads', 'time stamps of SQLite database files (set to the simulated time of their last write)', 'other processes on SQLite caches: raw sqlite3 connections kept open (WAL mode) or holding the write lock during the cleanup'],
     'outside_the_seams': ['sqlite file I/O on tmpfs'],
 }
 ASSUMPTIONS = [
